@@ -656,6 +656,7 @@ static int
 has_traits_setattro(has_traits_object *obj, PyObject *name, PyObject *value)
 {
     trait_object *trait;
+    int result;
 
     if ((obj->itrait_dict == NULL)
         || ((trait = (trait_object *)dict_getitem(obj->itrait_dict, name))
@@ -667,7 +668,13 @@ has_traits_setattro(has_traits_object *obj, PyObject *name, PyObject *value)
         }
     }
 
-    return trait->setattr(trait, trait, obj, name, value);
+    /* The trait is only borrowed from the trait dictionaries, and the
+       setter runs arbitrary Python code (validators, notifiers) that may
+       remove it from them: keep it alive for the duration of the call. */
+    Py_INCREF(trait);
+    result = trait->setattr(trait, trait, obj, name, value);
+    Py_DECREF(trait);
+    return result;
 }
 
 /*-----------------------------------------------------------------------------
@@ -870,7 +877,13 @@ has_traits_getattro(has_traits_object *obj, PyObject *name)
              != NULL))
         || ((trait = (trait_object *)dict_getitem(obj->ctrait_dict, name))
             != NULL)) {
-        return trait->getattr(trait, obj, name);
+        /* The trait is only borrowed from the trait dictionaries, and the
+           getter may run arbitrary Python code that removes it from them:
+           keep it alive for the duration of the call. */
+        Py_INCREF(trait);
+        value = trait->getattr(trait, obj, name);
+        Py_DECREF(trait);
+        return value;
     }
 
     /* Try normal Python attribute access, but if it fails with an
@@ -883,7 +896,10 @@ has_traits_getattro(has_traits_object *obj, PyObject *name)
     PyErr_Clear();
 
     if ((trait = get_prefix_trait(obj, name, 0)) != NULL) {
-        return trait->getattr(trait, obj, name);
+        Py_INCREF(trait);
+        value = trait->getattr(trait, obj, name);
+        Py_DECREF(trait);
+        return value;
     }
 
     return NULL;
@@ -1225,9 +1241,13 @@ retry:
         goto add_trait;
     }
 
+    /* Keep the (borrowed) trait alive while its setter runs Python code. */
+    Py_INCREF(trait);
     if (trait->setattr(trait, trait, obj, name, event_object) < 0) {
+        Py_DECREF(trait);
         return NULL;
     }
+    Py_DECREF(trait);
 
     Py_INCREF(Py_None);
 
@@ -2697,6 +2717,10 @@ setattr_delegate(
         }
 
         if (traitd->delegate_attr_name == NULL) {
+            /* The terminal trait is only borrowed from the delegate's trait
+               dictionaries: keep it alive while its setter runs Python
+               code. */
+            Py_INCREF(traitd);
             if (traito->flags & TRAIT_MODIFY_DELEGATE) {
                 result =
                     traitd->setattr(traitd, traitd, delegate, daname, value);
@@ -2715,6 +2739,7 @@ setattr_delegate(
                     }
                 }
             }
+            Py_DECREF(traitd);
             Py_DECREF(delegate);
             Py_DECREF(daname);
 
